@@ -222,6 +222,9 @@ def shards(tier):
             for persistent in (False, True):
                 out.append(('inbound', {'profile': profile, 'persistent': persistent, 'k': 4, 'first': 'PUBLISH', 'second': 'reconnect',
                                         'vary': False, 'ver': 311, 'rich': 0}))
+                # a completed exchange, then two more steps (the identifier reused by a new message, DUP set or not, and released)
+                out.append(('inbound', {'profile': profile, 'persistent': persistent, 'k': 4, 'first': 'PUBLISH', 'second': 'PUBREL',
+                                        'vary': False, 'ver': 311, 'rich': 0}))
     return out
 
 
@@ -229,7 +232,7 @@ META = {
     'rule': 'connected subscribing client; k free steps from {PUBLISH with symbolic QoS bits 0..3, DUP, RETAIN, identifier, topic code point(s) over the whole '
             'Unicode range, payload byte(s); PUBREL with symbolic identifier; loss + rebuilt protocol + connect(clean symbolic) + CONNACK}; a receiver model '
             'written from the statement tracks the open QoS 2 exchanges; non-trivial = counters',
-    'bounds': {'quick': 'k=3 (k=4 for histories starting PUBLISH, loss + reconnect); topic 1 symbolic code point (whole Unicode range in the first PUBLISH of a history, printable ASCII later), payload 1 symbolic byte; subscriber and pubsubs; first session clean or persistent',
+    'bounds': {'quick': 'k=3 (k=4 for histories starting PUBLISH, loss + reconnect and for histories starting PUBLISH, PUBREL); topic 1 symbolic code point (whole Unicode range in the first PUBLISH of a history, printable ASCII later), payload 1 symbolic byte; subscriber and pubsubs; first session clean or persistent',
                'thorough': 'k=4'},
     'stubs': ['fake transport', 'twisted task.Clock', 'jitter: fixed sequence'],
     'outside': ['histories longer than k steps', 'after a clean-session reconnect the fate of a message stored by the previous connection is left open (0 or 1 delivery)',
